@@ -136,6 +136,10 @@ PRegister(t, mask, extra) ==
               fmt |-> IF t \in {"SymmetricKey", "SplitKey"} THEN "RAW" ELSE IF t = "PublicKey" THEN "PKCS_1" ELSE IF t = "PrivateKey" THEN "PKCS_8" ELSE "NA",
               sub |-> IF t = "Certificate" THEN "X_509" ELSE IF t = "SecretData" THEN "PASSWORD" ELSE IF t = "OpaqueData" THEN "NONE" ELSE "NA",
               wrapped |-> FALSE]]
+\* a key object of another kind whose material would do as an AES key (RAW, 16 bytes, AES / 128): the kind checks
+\* of the cryptographic operations and of wrapping-key use must refuse it although the backend could use it
+PRegisterRaw(t, mask) ==
+    [PRegister(t, mask, <<>>) EXCEPT !.obj.val = "k16", !.obj.alg = "AES", !.obj.len = 128, !.obj.fmt = "RAW"]
 PUid(u) == [uid |-> u]
 PRevoke(u, code) == [uid |-> u, code |-> code]
 PGet(u) == [uid |-> u, fmt |-> "", comp |-> "", wrap |-> FALSE,
